@@ -83,6 +83,7 @@ def run(rep: vk.Report):
     kinds_hist = {}
     nontrivial = set()
     param_sets = [0]
+    partial, partial_meta = [], []
     for g, e in common.corpus(rng, rep.tier, n_expr, profiles=("poly", "smooth", "smooth", "all", "all"), errors=errors):
         try:
             S = ser.Ser()
@@ -125,9 +126,12 @@ def run(rep: vk.Report):
             if obs["evaluate"] is None:
                 continue  # outside the domain: the property does not speak about this point
             if len(vals) < 6:
-                rep.violation({"kind": "numeric", "obligation": "every path returns a finite number where evaluate() does",
-                               "expr": te[:3000], "V": [v.name for v in V], "point": pt,
-                               "obs": {k: str(v) for k, v in obs.items()}}, concrete=True)
+                # some path raised / overflowed although evaluate() produced a number.  evaluate() goes through NumPy's inf
+                # arithmetic (0.5/0 -> inf, inf**-0.5 -> 0.0), so a finite value does not prove the point is in the domain:
+                # the MODEL decides - only if the enclosure of [[e]](x) is bounded is a failing path a violation
+                ppts_ = {n: p.value for n, p in params.items()}
+                partial.append(f"({te}, {common.pts_term(pt)}, {common.pts_term(ppts_)}, {ser.lst(ser.q(v) for v in vals)})")
+                partial_meta.append({"expr": te[:3000], "V": [v.name for v in V], "point": pt, "obs": {k: str(v) for k, v in obs.items()}})
                 continue
             ppts = {n: p.value for n, p in params.items()}
             cases.append(f"({te}, {common.pts_term(pt)}, {common.pts_term(ppts)}, {ser.lst(ser.q(v) for v in vals)})")
@@ -141,6 +145,15 @@ def run(rep: vk.Report):
         for n, p in params.items():
             p.set(saved[n])
     fails, und = common.run_classify(IMPORTS, "", common.NUM_TYPE, cases, common.NUM_CHECKER) if cases else ([], [])
+    if partial:
+        pf, pu = common.run_classify(IMPORTS, "", common.NUM_TYPE, partial, common.NUM_CHECKER)
+        for i in range(len(partial)):
+            if i in set(pu):
+                continue                      # singular / outside the domain: the property does not speak about this point
+            rep.violation({"kind": "numeric", "obligation": "inside the domain (bounded enclosure of [[e]](x)) every path returns the number",
+                           "expr": partial_meta[i]["expr"], "V": partial_meta[i]["V"], "point": partial_meta[i]["point"],
+                           "obs": partial_meta[i]["obs"], "finite_values_outside_enclosure": i in set(pf),
+                           "witness": partial_meta[i]}, concrete=True)
     for i in fails:
         m = meta[i]
         vals = {k: v for k, v in m["obs"].items() if isinstance(v, float)}
@@ -167,6 +180,7 @@ def run(rep: vk.Report):
     cov["node_kind_histogram"] = dict(sorted(kinds_hist.items()))
     cov["generator_hits"] = dict(sorted(hits.items()))
     cov["parameter_updates_after_compile"] = param_sets[0]
+    cov["points_where_some_path_failed"] = len(partial)
     cov["numeric_cases"] = len(cases)
     cov["numeric_undecided_near_singularity"] = len(und)
     cov["numeric_decided"] = len(cases) - len(und)
